@@ -892,10 +892,47 @@ pub fn run(ctx: Arc<Ctx>) {
 		if let Some(f) = cbad {
 			ctx.violation("converting reader's stream pairs a tile with another coordinate than its mapping says", &format!("first failing configuration: {f}"), json!({"op": "converter-stream"}));
 		}
-		ctx.extra("in_tree_users", json!({"default_box_stream_sparse_sources": n, "converter_stream_configurations": cn}));
+		// from_debug (the in-tree user of from_coord_iter_parallel): 10^4 generated vector tiles in one stream - each
+		// coordinate once, each tile the one a single lookup returns for that coordinate (sampled every 41st), on a
+		// multi-thread runtime; and the same for a second stream on the same operation afterwards
+		let mut dn = 0u64;
+		{
+			let work = crate::containers::WorkDir::new("c14dbg");
+			let fac = crate::pipeline::factory(vec![], &work.0);
+			match crate::pipeline::build_op(&rt, &fac, "from_debug format=pbf") {
+				Err(e) => ctx.violation("from_debug pipeline cannot be built", &e, json!({"op": "from_debug-stream"})),
+				Ok(op) => {
+					for (z, x0, y0, w, h) in [(14u8, 3000u32, 77u32, 5000u32, 2u32), (13, 0, 4000, 4200, 1), (14, 3000, 78, 2500, 2)] {
+						let bbox = TileBBox::new(z, x0, y0, x0 + w - 1, y0 + h - 1).unwrap();
+						let out: Vec<(TileCoord3, Blob)> = rt.block_on(async { op.get_tile_stream(bbox.clone()).await.collect().await });
+						dn += out.len() as u64;
+						let mut seen = std::collections::BTreeSet::new();
+						let mut problem: Option<String> = None;
+						for (i, (c, b)) in out.iter().enumerate() {
+							if c.z != z || c.x < x0 || c.x >= x0 + w || c.y < y0 || c.y >= y0 + h || !seen.insert((c.x, c.y)) {
+								problem.get_or_insert_with(|| format!("coordinate {c:?} is outside the box or delivered twice"));
+							}
+							if i % 41 == 0 {
+								let single = rt.block_on(op.get_tile_data(c)).ok().flatten();
+								if single.as_ref().map(|s| s.as_slice()) != Some(b.as_slice()) {
+									problem.get_or_insert_with(|| format!("tile streamed for {c:?} differs from the tile a lookup returns for it"));
+								}
+							}
+						}
+						if seen.len() as u64 != w as u64 * h as u64 {
+							problem.get_or_insert_with(|| format!("{} of {} tiles delivered", seen.len(), w as u64 * h as u64));
+						}
+						if let Some(pb) = problem {
+							ctx.violation("from_debug stream: tile lost, duplicated or attached to another coordinate", &format!("box {bbox:?}: {pb}"), json!({"op": "from_debug-stream", "level": z, "width": w, "height": h}));
+						}
+					}
+				}
+			}
+		}
+		ctx.extra("in_tree_users", json!({"default_box_stream_sparse_sources": n, "converter_stream_configurations": cn, "from_debug_tiles_streamed": dn}));
 	}
 	ctx.extra("large_stream_families", json!({"sizes": big, "disciplines": ["reverse", "rotate", "evens-then-odds"], "note": "fixed deterministic families, not exhaustive"}));
-	ctx.extra("not_covered", json!("the in-tree users TileConverter::process_stream and from_debug are not gated (their callbacks are not harness-supplied); they are covered functionally under a real multi-thread runtime by C04 and C02"));
+	ctx.extra("not_covered", json!("the in-tree users TileConverter::process_stream and from_debug are not gated (their callbacks are not harness-supplied); beyond the deterministic checks above they are covered functionally under a real multi-thread runtime by C04 and C02"));
 	ctx.exhaustive(all_exhaustive);
 }
 
